@@ -12,7 +12,7 @@
 //! |----------------|--------------------------------------------|--------|
 //! | **ADD**        | `a + b - out = 0`                          | 1      |
 //! | **MUL**        | `a * b - out = 0`                          | 2      |
-//! | **BOOL_CHECK** | `a * (a - 1) = 0`                          | 2      |
+//! | **BOOL_CHECK** | `a * (a - 1) = 0`, `out = a`               | 2      |
 //! | **MUL_ADD**    | `a * b + c - out = 0`                      | 2      |
 //! | **HORNER_ACC** | `prev_row_out * b + c - a - out = 0`       | 2      |
 //!
@@ -852,6 +852,12 @@ where
             builder.assert_zero(sel_bool * a[0] * (a[0] - one));
             for i in 1..D {
                 builder.assert_zero(sel_bool * a[i]);
+            }
+            // The checked value is the one the row puts on the bus through `out`: when `a`
+            // aliases `out` (a hint output or private input first used here) the `a` cell has
+            // no bus interaction of its own, so it must be tied to `out` inside the row.
+            for i in 0..D {
+                builder.assert_zero(sel_bool * (out[i] - a[i]));
             }
 
             // ── MUL_ADD: a * b + c - out = 0 ────────────────────────────
